@@ -776,6 +776,468 @@ class Z6MultiVectors(_ImplOps, Stream):
 # }}}
 
 
+# {{{ mixed scalar / multivector operands: a grade-0 blade in every spelling the API accepts
+
+#: the grade the named product keeps of the geometric product of an r-blade and an s-blade
+#: (None = everything); a negative grade keeps nothing
+GRADE_PART = {
+    "geometric": None,
+    "outer": lambda r, s: r + s,
+    "inner": lambda r, s: abs(r - s),
+    "lc": lambda r, s: s - r,
+    "rc": lambda r, s: r - s,
+    "scalar": lambda r, s: 0,
+}
+
+
+def grade_part_product(x, y, metric, kind):
+    """the `kind` product of two coefficient dicts (bitmap -> exact coefficient) by its definition:
+    blade pair by blade pair the grade part of the list-based geometric product; zeros dropped"""
+    sel = GRADE_PART[kind]
+    out = {}
+    for ka, va in x.items():
+        for kb, vb in y.items():
+            bits, c = list_product(blade_list(ka), blade_list(kb), metric)
+            if sel is not None and grade(bits) != sel(grade(ka), grade(kb)):
+                continue
+            out[bits] = out.get(bits, 0) + c * va * vb
+    return {k: v for k, v in out.items() if v != 0}
+
+
+#: symbolic scalars: the same Python expression builds the pymbolic tree (x = Variable) and the
+#: reference value (x = Fraction)
+EXPR_FORMS = {
+    "x": lambda x, k: x,
+    "x+k": lambda x, k: x + k,
+    "k+x": lambda x, k: k + x,
+    "k*x": lambda x, k: k * x,
+    "x*k": lambda x, k: x * k,
+    "k-x": lambda x, k: k - x,
+    "x**2": lambda x, k: x ** 2,
+    "x*x+k": lambda x, k: x * x + k,
+    "-x": lambda x, k: -x,
+}
+
+SCALAR_KINDS = ["int", "fraction", "bool", "npint", "expr"]
+#: (name, index of the answer in the driver's `c18AllOps` list)
+SCALAR_OPS = [("geometric", 0), ("outer", 1), ("inner", 2), ("lc", 3), ("rc", 4), ("scalar", 5),
+              ("div", 10), ("eq", 25), ("add", 31), ("sub", 32)]
+
+
+def coef_value(c, xval):
+    """exact value (Fraction) of a coefficient the real code produced; a pymbolic expression in the
+    one variable x is evaluated at x = xval by this small independent evaluator"""
+    if isinstance(c, Fraction):
+        return c
+    if isinstance(c, (int, np.integer)):
+        return Fraction(int(c))
+    from pymbolic import primitives as p
+    if isinstance(c, p.Variable):
+        if c.name != "x":
+            raise TypeError(f"unexpected variable {c!r}")
+        return xval
+    if isinstance(c, p.Sum):
+        return sum((coef_value(ch, xval) for ch in c.children), Fraction(0))
+    if isinstance(c, p.Product):
+        r = Fraction(1)
+        for ch in c.children:
+            r *= coef_value(ch, xval)
+        return r
+    if isinstance(c, p.Quotient):
+        return coef_value(c.numerator, xval) / coef_value(c.denominator, xval)
+    if isinstance(c, p.Power) and isinstance(c.exponent, int) and c.exponent >= 0:
+        return coef_value(c.base, xval) ** c.exponent
+    raise TypeError(f"no exact value for the coefficient {c!r} ({type(c).__name__})")
+
+
+class ScalarOperands(Stream):
+    """a grade-0 blade as an operand of every binary operation, in each spelling the public API
+    accepts: wrapped as MultiVector(s, space), and as a PLAIN scalar (Python int / bool, Fraction,
+    numpy integer, pymbolic expression) on the LEFT (reflected operators `__rmul__ __rxor__ __ror__
+    __rlshift__ __rrshift__ __radd__ __rsub__ __rtruediv__`, reflected `==`) and on the RIGHT
+    (`_cast_or_ni`) of `* ^ | << >> + - / == !=`, `scalar_product` and the commutator `x`.  The
+    property reads "the outer, inner, scalar, left- and right-contraction products of two blades
+    equal the corresponding grade parts of their geometric product": the reference is that
+    definition applied to the coefficient dicts ({0: s}, M) by the list-based blade multiplication,
+    so a plain scalar must behave like the grade-0 multivector.  Model side: the driver request is
+    the grade-0 multivector (`ofScalar s`), the implementation answer is computed with the spelled
+    operands.  Symbolic scalars are compared by value at a rational point."""
+    name = "scalar-operands"
+
+    # ---- cases --------------------------------------------------------------------------------
+    def _variants(self, base, kinds):
+        for kind, extra in kinds:
+            for spelling, side in (("plain", "left"), ("plain", "right"), ("mv", "left"),
+                                   ("mv", "right")):
+                yield {**base, "kind": kind, **extra, "spelling": spelling, "side": side}
+
+    def _rand_scalar(self, rng, kind):
+        if kind == "int":
+            return {"s": str(rng.choice([0, 1, -1, 2, 3, -4, 7]))}
+        if kind == "npint":
+            return {"s": str(rng.choice([0, 1, -1, 2, 3, -5]))}
+        if kind == "bool":
+            return {"s": str(rng.choice([0, 1, 1]))}
+        if kind == "fraction":
+            return {"s": str(rand_frac(rng, zero_ok=rng.random() < 0.15))}
+        form = rng.choice(sorted(EXPR_FORMS))
+        k = rng.randint(-3, 3)
+        # now and then a point where the symbolic scalar has the value 0
+        xval = Fraction(k) if (form == "k-x" and rng.random() < 0.3) else \
+            Fraction(rng.choice([-5, -2, -1, 1, 2, 3, 7]), rng.choice([1, 2, 3, 5]))
+        return {"form": form, "k": k, "xval": str(xval)}
+
+    def _rand_m(self, rng, dims, ints, sval):
+        """the multivector operand: a blade, a vector, a pure scalar (equal to s or not), empty,
+        all blades, or random terms"""
+        coef = (lambda: str(rng.choice([-3, -2, -1, 1, 2, 3]))) if ints else \
+            (lambda: str(rand_frac(rng, zero_ok=False)))
+        shape = rng.randrange(8)
+        if shape == 0:
+            return {str(rng.randrange(2 ** dims)): coef()}
+        if shape == 1 and dims:
+            return {str(1 << i): coef() for i in rng.sample(range(dims), rng.randint(1, dims))}
+        if shape == 2:
+            return {"0": str(sval)} if sval != 0 and (not ints or sval.denominator == 1) else {}
+        if shape == 3:
+            return {"0": coef()}
+        if shape == 4:
+            return {str(b): coef() for b in range(2 ** dims)}
+        if ints:
+            return {str(k): str(v) for k, v in rand_mv(rng, dims).items()}
+        return {str(k): v for k, v in rand_fmv(rng, dims).items()}
+
+    def cases(self, rng, tier):
+        numeric = ["int", "fraction", "bool", "npint"]
+        # every basis blade (and the sum of all of them) of dims 0..2 (3 thorough) against fixed
+        # scalars in every spelling: each operator x side x blade grade is met in every run
+        for dims in range(0, 3 if tier == "quick" else 4):
+            metrics = [["1"] * dims, ["-1", "2", "0"][:dims]] if dims else [[]]
+            for metric in metrics:
+                ms = [{str(b): "2/3"} for b in range(2 ** dims)]
+                ms.append({str(b): str(Fraction((-1) ** b * (2 * b + 1), 2)) for b in range(2 ** dims)})
+                for m in ms:
+                    base = {"dims": dims, "metric": metric, "m": m}
+                    yield from self._variants(base, [("int", {"s": "3"}), ("fraction", {"s": "-2/3"}),
+                                                     ("int", {"s": "0"}), ("npint", {"s": "3"}),
+                                                     ("bool", {"s": "1"})])
+                for b in range(2 ** dims):
+                    base = {"dims": dims, "metric": [str(int(Fraction(g))) for g in metric],
+                            "m": {str(b): "2"}}
+                    yield from self._variants(base, [("expr", {"form": "x", "k": 0, "xval": "5/7"}),
+                                                     ("expr", {"form": "k-x", "k": 2, "xval": "2"})])
+        n = 220 if tier == "quick" else 4000
+        for i in range(n):
+            dims = rng.randint(0, 4)
+            kind = numeric[i % 4] if i % 5 else "expr"
+            extra = self._rand_scalar(rng, kind)
+            if kind == "expr":
+                metric = [rng.choice(["1", "-1", "0", "2", "-3"]) for _ in range(dims)]
+            else:
+                metric = [rng.choice(QMETRIC_VALUES) for _ in range(dims)]
+            sval = self._sval({"kind": kind, **extra})
+            base = {"dims": dims, "metric": metric, "m": self._rand_m(rng, dims, kind == "expr", sval)}
+            yield from self._variants(base, [(kind, extra)])
+
+    # ---- operands -----------------------------------------------------------------------------
+    @staticmethod
+    def _sval(pl):
+        """the exact value of the scalar operand"""
+        if pl["kind"] == "expr":
+            return Fraction(EXPR_FORMS[pl["form"]](Fraction(pl["xval"]), pl["k"]))
+        return Fraction(pl["s"])
+
+    @staticmethod
+    def _sobj(pl):
+        """the scalar operand as the caller spells it"""
+        kind = pl["kind"]
+        if kind == "int":
+            return int(pl["s"])
+        if kind == "bool":
+            return bool(int(pl["s"]))
+        if kind == "npint":
+            return np.int64(int(pl["s"]))
+        if kind == "fraction":
+            return Fraction(pl["s"])
+        from pymbolic import var
+        return EXPR_FORMS[pl["form"]](var("x"), pl["k"])
+
+    def _operands(self, pl):
+        from pymbolic.geometric_algebra import MultiVector
+        sp = fspace(pl["dims"], pl["metric"])
+        conv = (lambda v: int(Fraction(v))) if pl["kind"] == "expr" else Fraction
+        m = MultiVector({int(k): conv(v) for k, v in pl["m"].items()}, sp)
+        s = self._sobj(pl)
+        if pl["spelling"] == "mv":
+            s = MultiVector(s, sp)
+        return (s, m) if pl["side"] == "left" else (m, s)
+
+    def _skipped(self, pl, op):
+        """operations left out because their answer is not exact / not the multivector's to give"""
+        kind = pl["kind"]
+        if op == "div":
+            # int / int is a float in `coeff / nsqr` of inv(): dividing BY an int scalar, and
+            # dividing by a multivector with int coefficients (the symbolic cases)
+            if pl["side"] == "right" and kind != "fraction" and \
+                    (kind != "expr" or self._sval(pl) == 0):
+                return True
+            if pl["side"] == "left" and kind == "expr":
+                return True
+        if kind == "expr" and op in ("eq", "ne", "x"):
+            # == of an expression and a number is structural (and pymbolic's own __eq__ answers
+            # when the expression is on the left); the commutator halves with the float 0.5
+            return True
+        if op in ("scalar", "x") and pl["spelling"] == "plain" and pl["side"] == "left":
+            return True          # methods of the left operand
+        return False
+
+    @staticmethod
+    def _try(f):
+        try:
+            return ("ok", f())
+        except (ArithmeticError, NotImplementedError, ValueError, TypeError, AttributeError) as e:
+            return ("raise", type(e).__name__)
+
+    def _outcomes(self, pl, lhs, rhs):
+        """op name -> ("ok", result) | ("raise", exception name) | None (skipped)"""
+        table = {
+            "geometric": lambda: lhs * rhs, "outer": lambda: lhs ^ rhs, "inner": lambda: lhs | rhs,
+            "lc": lambda: lhs << rhs, "rc": lambda: lhs >> rhs,
+            "scalar": lambda: lhs.scalar_product(rhs), "div": lambda: lhs / rhs,
+            "eq": lambda: lhs == rhs, "ne": lambda: lhs != rhs,
+            "add": lambda: lhs + rhs, "sub": lambda: lhs - rhs, "x": lambda: lhs.x(rhs),
+        }
+        return {op: (None if self._skipped(pl, op) else self._try(f)) for op, f in table.items()}
+
+    def _xval(self, pl):
+        return Fraction(pl["xval"]) if pl["kind"] == "expr" else Fraction(0)
+
+    def _coeffs(self, pl, mv, keep_zeros=False):
+        """bitmap -> exact coefficient; None when a coefficient has no exact value (a float: the
+        oracle abstains, exact operands are only ever combined by exact operations here)"""
+        xv = self._xval(pl)
+        try:
+            d = {int(k): coef_value(v, xv) for k, v in data_of(mv).items()}
+        except (TypeError, ZeroDivisionError):
+            return None
+        return d if keep_zeros else {k: v for k, v in d.items() if v != 0}
+
+    def _scalar(self, pl, c):
+        try:
+            return coef_value(c, self._xval(pl))
+        except (TypeError, ZeroDivisionError):
+            return None
+
+    # ---- correspondence ------------------------------------------------------------------------
+    def request(self, pl):
+        sval = self._sval(pl)
+        s = {0: str(sval)} if sval != 0 else {}
+        m = {int(k): v for k, v in pl["m"].items()}
+        a, b = (s, m) if pl["side"] == "left" else (m, s)
+        return (f"(ga-mvq ({' '.join(pl['metric'])}) {pl['dims']} {fmv_sx(a)} {fmv_sx(b)} 2 0)")
+
+    def _norm(self, pl, d):
+        """a coefficient dict as a mapping: sorted; symbolic cases store coefficients that are
+        zero only at the evaluation point, so zeros are dropped there"""
+        items = sorted((int(k), Fraction(v)) for k, v in d.items())
+        if pl["kind"] == "expr":
+            items = [(k, v) for k, v in items if v != 0]
+        return "(" + " ".join(f"({k} {v})" for k, v in items) + ")"
+
+    def run_impl(self, pl):
+        from pymbolic.geometric_algebra import MultiVector
+        lhs, rhs = self._operands(pl)
+        out = self._outcomes(pl, lhs, rhs)
+        parts = []
+        for op, _idx in SCALAR_OPS:
+            o = out[op]
+            if o is None:
+                parts.append("skip")
+            elif o[0] == "raise":
+                parts.append(o[1])
+            elif op == "eq":
+                parts.append("true" if o[1] else "false")
+            elif op == "scalar":
+                v = self._scalar(pl, o[1])
+                parts.append("inexact" if v is None else str(v))
+            elif isinstance(o[1], MultiVector):
+                d = self._coeffs(pl, o[1], keep_zeros=True)
+                parts.append("inexact" if d is None else self._norm(pl, d))
+            else:
+                parts.append(f"(not-a-multivector {type(o[1]).__name__})")
+        return "(" + " ".join(parts) + ")"
+
+    def agree(self, model, impl, pl):
+        from ..sexp import loads
+        m, i = loads(model), loads(impl)
+        if len(i) != len(SCALAR_OPS):
+            return "diff"
+        for (op, idx), got in zip(SCALAR_OPS, i):
+            if got == "skip":
+                continue
+            want = m[idx]
+            if isinstance(want, list):
+                want = loads(self._norm(pl, {k: v for k, v in want}))
+                if not isinstance(got, list):
+                    return "diff"
+                got = [[str(k), str(v)] for k, v in got]
+                want = [[str(k), str(v)] for k, v in want]
+            if want != got:
+                return "diff"
+        return "ok"
+
+    # ---- oracle ----------------------------------------------------------------------------------
+    def oracle(self, pl):
+        """the first failing operation (order: * ^ | << >> scalar_product x + - / == !=); the other
+        operations failing on the same operands are named in the detail"""
+        fails = self._failures(pl)
+        if not fails:
+            return None
+        first = fails[0]
+        if len(fails) > 1:
+            first.detail += "; also failing on these operands: " + ", ".join(f.key for f in fails[1:])
+        return first
+
+    def _failures(self, pl):  # noqa: C901
+        from pymbolic.geometric_algebra import MultiVector
+        lhs, rhs = self._operands(pl)
+        metric = [Fraction(g) for g in pl["metric"]]
+        sval = self._sval(pl)
+        cs = {0: sval} if sval != 0 else {}
+        mobj = rhs if pl["side"] == "left" else lhs
+        cm = self._coeffs(pl, mobj)
+        cl, cr = (cs, cm) if pl["side"] == "left" else (cm, cs)
+        out = self._outcomes(pl, lhs, rhs)
+        what = (f"{self._sobj(pl)!r} ({pl['kind']}"
+                + (f", x = {pl['xval']}" if pl["kind"] == "expr" else "") + ") "
+                + ("wrapped as MultiVector " if pl["spelling"] == "mv" else "as a plain scalar ")
+                + f"on the {pl['side']}, M = {mobj!r}, metric {pl['metric']}")
+        fails = []
+
+        def fail(op, text):
+            fails.append(Failure(f"scalar-{pl['spelling']}-{pl['side']}-{op}", f"{text}; s = {what}", pl))
+
+        sym = {"geometric": "*", "outer": "^", "inner": "|", "lc": "<<", "rc": ">>", "add": "+",
+               "sub": "-", "div": "/", "eq": "==", "ne": "!="}
+
+        def shown(op):
+            return f"{'s' if pl['side'] == 'left' else 'M'} {sym[op]} {'M' if pl['side'] == 'left' else 's'}"
+
+        def mv_result(op):
+            """the coefficients of a result that has to be a MultiVector (None: a failure was
+            recorded, or the result is not exact and the oracle abstains)"""
+            o = out[op]
+            if o[0] == "raise":
+                return fail(op, f"{shown(op)} raises {o[1]}")
+            if not isinstance(o[1], MultiVector):
+                return fail(op, f"{shown(op)} is {o[1]!r}, not a MultiVector")
+            return self._coeffs(pl, o[1])
+
+        # the five products: grade parts of the geometric product of ({0: s}, M)
+        for op in ("geometric", "outer", "inner", "lc", "rc"):
+            got = mv_result(op)
+            want = grade_part_product(cl, cr, metric, op)
+            if got is not None and got != want:
+                fail(op, f"{shown(op)} = {out[op][1]!r}: coefficients {got}, the grade part "
+                         f"of the geometric product of the grade-0 blade and M is {want}")
+        if out["scalar"] is not None:
+            o = out["scalar"]
+            want = grade_part_product(cl, cr, metric, "scalar").get(0, Fraction(0))
+            if o[0] == "raise" or self._scalar(pl, o[1]) not in (want, None):
+                fail("scalar", f"scalar_product gives {o[1]!r}, the scalar part of the "
+                               f"geometric product is {want}")
+        if out["x"] is not None:
+            # a scalar commutes with everything: the commutator product vanishes
+            o = out["x"]
+            if o[0] == "raise" or not isinstance(o[1], MultiVector) \
+                    or any(v != 0 for v in data_of(o[1]).values()):
+                fail("x", f"the commutator product with a scalar is {o[1]!r}, not 0")
+        # sum and difference: coefficient-wise
+        for op, sign in (("add", 1), ("sub", -1)):
+            got = mv_result(op)
+            want = dict(cl)
+            for k, v in cr.items():
+                want[k] = want.get(k, 0) + sign * v
+            want = {k: v for k, v in want.items() if v != 0}
+            if got is not None and got != want:
+                fail(op, f"{shown(op)} = {out[op][1]!r}: coefficients {got}, coefficient-wise {want}")
+        # quotient
+        if out["div"] is not None:
+            o = out["div"]
+            if pl["side"] == "right":
+                # M / s: every coefficient divided by s; a zero scalar has no inverse (whatever is
+                # returned, (M / 0) * 0 = 0 is not M; which exception is raised is the
+                # correspondence's business)
+                if sval == 0:
+                    if o[0] == "ok" and cm:
+                        fail("div", f"M / 0 returns {o[1]!r} for a non-zero M")
+                else:
+                    got = mv_result("div")
+                    want = {k: v / sval for k, v in cm.items()}
+                    if got is not None and got != want:
+                        fail("div", f"M / s = {o[1]!r}: coefficients {got}, expected {want}")
+            else:
+                # s / M = s * inv(M): whenever it returns, (s / M) * M = s; it returns whenever M is
+                # a basis blade times a coefficient with non-zero square, and exactly when the
+                # quotient of the wrapped scalar MultiVector(s) / M does (same value)
+                blade = len(data_of(mobj)) == 1 and len(cm) == 1 and \
+                    grade_part_product(cm, cm, metric, "scalar").get(0, 0) != 0
+                ref = self._try(lambda: MultiVector(self._sobj(pl), mobj.space) / mobj)
+                if o[0] == "ok":
+                    got = mv_result("div")
+                    if got is not None and list_mul(got, cm, metric) != cs:
+                        fail("div", f"(s / M) * M != s: s / M = {o[1]!r}")
+                    elif got is not None and (ref[0] != "ok"
+                                              or self._coeffs(pl, ref[1]) not in (got, None)):
+                        fail("div", f"s / M gives {o[1]!r} but MultiVector(s) / M gives {ref[1]!r}")
+                elif blade:
+                    fail("div", f"s / M raises {o[1]} for a non-null basis blade M")
+                elif ref != o:
+                    fail("div", f"s / M raises {o[1]} but MultiVector(s) / M gives {ref[1]!r}")
+        # == / != : coefficient-wise (operands without stored zeros)
+        if out["eq"] is not None and all(v != 0 for v in self._coeffs(pl, mobj, True).values()):
+            want = cl == cr
+            for op, w in (("eq", want), ("ne", not want)):
+                o = out[op]
+                if o[0] == "raise" or bool(o[1]) != w:
+                    fail(op, f"{shown(op)} is {o[1]!r}, coefficient-wise it is {w}")
+        return fails
+
+    def shrink(self, pl):
+        for k in list(pl["m"]):
+            if len(pl["m"]) > 1:
+                d = dict(pl["m"])
+                del d[k]
+                yield {**pl, "m": d}
+        for k, v in pl["m"].items():
+            if v != "1":
+                yield {**pl, "m": {**pl["m"], k: "1"}}
+        for i, g in enumerate(pl["metric"]):
+            if g != "1":
+                yield {**pl, "metric": pl["metric"][:i] + ["1"] + pl["metric"][i + 1:]}
+        top = max([int(k).bit_length() for k in pl["m"]] + [0])
+        if top < pl["dims"]:
+            yield {**pl, "dims": pl["dims"] - 1, "metric": pl["metric"][:-1]}
+        if pl["kind"] in ("fraction", "npint", "bool") and Fraction(pl["s"]).denominator == 1:
+            yield {**pl, "kind": "int"}
+        if pl["kind"] not in ("expr", "bool") and pl["s"] not in ("3", "0"):
+            yield {**pl, "s": "3"}
+        if pl["kind"] == "expr" and pl["form"] != "x":
+            yield {**pl, "form": "x"}
+
+    def nontrivial_key(self, pl, model, impl):
+        import json
+        return json.dumps(pl, sort_keys=True) if pl["m"] else None
+
+    def stats(self, pl, mo, io, acc):
+        k = f"{pl['kind']}/{pl['spelling']}-{pl['side']}"
+        by = acc.setdefault("by_spelling", {})
+        by[k] = by.get(k, 0) + 1
+        if pl["spelling"] == "plain" and any(int(b) for b in pl["m"]) and self._sval(pl) != 0:
+            acc["plain_scalar_vs_nonscalar"] = acc.get("plain_scalar_vs_nonscalar", 0) + 1
+
+# }}}
+
 
 # {{{ T-gen tie: the table interpreter on the regenerated function table vs the real functions
 
@@ -1122,7 +1584,7 @@ PROP = Prop(
     theorems=[],
     extractors=[extract],
     streams=[BladePairs(), MultiVectors(), FractionMultiVectors(), Z6MultiVectors(), Perms(),
-             TableRun()],
+             TableRun(), ScalarOperands()],
     probes=[probes],
     trusted_base=["Lean 4.33 kernel; axioms propext, Classical.choice, Quot.sound only",
                   "extract/geometric_algebra.py (ast reader of pymbolic/geometric_algebra/__init__.py; "
